@@ -393,6 +393,11 @@ LARGE = {
     'log1p': (UNARY['log1p'][0], _seq_generic(mpmath.log1p), R((0.0, 2))),
     'logit': (UNARY['logit'][0], _seq_generic(lambda x: mpmath.log(x / (1 - x))), R((0.35, 0.65))),
     'expit': (UNARY['expit'][0], _seq_generic(lambda x: 1 / (1 + mpmath.exp(-x))), R((-1, 1))),
+    'pow3': (lambda x: x ** 3, _seq_generic(lambda x: x ** 3), R((-1.5, 1.5))),
+    'pow7': (lambda x: x ** 7, _seq_generic(lambda x: x ** 7), R((-1.2, 1.2))),
+    'pow-2': (lambda x: x ** -2, _seq_generic(lambda x: x ** -2), R((0.8, 3))),
+    'pow1.5': (lambda x: x ** 1.5, _seq_generic(lambda x: x ** mpmath.mpf('1.5')), R((0.8, 3))),
+    'square': (UNARY['square'][0], _seq_generic(lambda x: x * x), R((-1.5, 1.5))),
     'gammaln': (UNARY['gammaln'][0],
                 lambda x0, D: [mpmath.loggamma(x0)] + [mpmath.psi(k - 1, x0) / mpmath.factorial(k) for k in range(1, D)], R((1.0, 4))),
     'psi': (UNARY['psi'][0], lambda x0, D: [mpmath.psi(k, x0) / mpmath.factorial(k) for k in range(D)], R((1.0, 4))),
@@ -424,6 +429,7 @@ RADIUS = {
     'psi': lambda x0: x0,
     'polygamma1': lambda x0: x0,
     'hyperu': lambda x0: x0,
+    'pow3': lambda x0: 1.0, 'pow7': lambda x0: 1.0, 'square': lambda x0: 1.0, 'pow-2': lambda x0: abs(x0), 'pow1.5': lambda x0: abs(x0),
 }
 
 
